@@ -18,5 +18,34 @@ fn main() {
     let budget = if args.tier == Tier::Quick { Duration::from_secs(40) } else { Duration::from_secs(1500) };
     qcheck::run_plans(&mut c, &plans, budget);
     qcheck::run_linear(&mut c, args.tier);
+    // The queues the drivers create: with a co-simulated reference device walking every chain of
+    // a script that touches every queue of every driver, for feature sets with and without
+    // INDIRECT_DESC / EVENT_IDX / VERSION_1. A chain the reference walker rejects (an indirect
+    // table on a queue for which the feature was not negotiated, a malformed chain) is a
+    // violation here as in the queue-core exploration.
+    {
+        use vlab::drivers::{TKind, ALL_KINDS, F_EVENT_IDX, F_INDIRECT, F_VERSION_1};
+        let mut ev = 0u64;
+        let mut clean = 0u64;
+        for kind in ALL_KINDS {
+            for offered in [0u64, F_VERSION_1, F_INDIRECT, F_VERSION_1 | F_INDIRECT, F_VERSION_1 | F_EVENT_IDX, F_VERSION_1 | F_INDIRECT | F_EVENT_IDX, u64::MAX & !F_INDIRECT, u64::MAX] {
+                for tk in [TKind::Model, TKind::Pci] {
+                    let out = vlab::c08::run_case(kind, tk, false, offered);
+                    ev += 1;
+                    let mut any = false;
+                    for (k, d) in out.viols {
+                        if k == "indirect-without-negotiation" || k == "chain-malformed" {
+                            any = true;
+                            c.add_violation(vlab::engine::Violation::new("C01", format!("driver:{}", k), format!("{} driver on {}, offered features {:#x}: {}", kind.name(), tk.name(), offered, d)), "driver-chains", vlab::util::J::obj().set("kind", vlab::util::J::s("driver-chains")).set("driver", vlab::util::J::s(kind.name())).set("offered", vlab::util::J::i(offered)), vec![]);
+                        }
+                    }
+                    if !any {
+                        clean += 1;
+                    }
+                }
+            }
+        }
+        c.add_sweep("driver-chains: every driver on the model and PCI transports under 8 offered feature sets, a script touching every queue; the co-simulated reference device walks every published chain (indirect tables only where negotiated, well-formed chains)", ev, clean, true, vlab::util::J::obj());
+    }
     c.finish();
 }
